@@ -10,8 +10,14 @@ Spaces (DESIGN.md section 4, C19):
   errlist  : make_error_list(n, d, op_list, tag_full) for all n <= N, 2 <= d <= D, three operator alphabets: every Pauli
              string of weight 1..d-1 exactly once and nothing else (reference: filter over all 4^n strings); the
              tag_full matrices are the kron-embedded operators, in the same order.
-  asym     : make_asymmetric_error_set(n, d, w_z) for the same (n, d) and all w_z of a dyadic alphabet: exactly the
-             non-identity strings with n_x + n_y + w_z n_z < d, each once.
+  asym     : make_asymmetric_error_set(n, d, w_z) for the same (n, d) and d = 1, all w_z of a dyadic alphabet and of a
+             non-dyadic one (0.1, 0.3, 1/3, 0.6: bound decided in exact rationals): exactly the non-identity strings with
+             n_x + n_y + w_z n_z < d, each once; the call without w_z == the call with w_z = 1 == make_error_list.
+  asym_count: the same for n = 8 .. 12, d = 1 .. 4 (every configuration below an element cap): complete / unique / nothing
+             else by counting the strings of each class (n_x, n_y, n_z) against the multinomial coefficients.
+  ipvar    : knill_laflamme_inner_product on generic atoms given as Fortran-ordered / strided / complex64 / real float64 /
+             float32 arrays and as transposed / conjugate-view / complex64 / real torch tensors (check_stabilizer: list of
+             vectors, Fortran, strided, complex64, real code words - in the `code` case).
   code     : per shipped code: header fields, code words of generate_code_np(encode, K) against an independent
              gate-by-gate reference simulation, orthonormality, make_error_list(n, d) complete for the code's own (n, d),
              the listed stabilizer strings (read from the shipped source) commute pairwise and fix every code word,
@@ -26,7 +32,9 @@ Spaces (DESIGN.md section 4, C19):
              matrices are not multiples of the identity and the loss is not zero).
   enum     : per code: Shor-Laflamme enumerators of the implementation's code words by an independent reference
              (Walsh-Hadamard over the Z part): sum rules, A_j <= B_j, A_j = B_j for j < d (a second, independent route
-             to the distance); where affordable numqi.qec.quantum_weight_enumerator is compared entry by entry.
+             to the distance); where affordable numqi.qec.quantum_weight_enumerator is compared entry by entry. The same
+             for sub-codes cw[:K'] of the codes with n <= 6 (and ((8,8,3))[:5] in the thorough tier), K' = 3, 5 not a
+             power of two (the zero-padding branch).
   ipgen    : knill_laflamme_inner_product (numpy and torch) on generic non-code atoms: fixes the conjugation / index
              convention <i|E|j> that real stabilizer amplitudes cannot see.
 
@@ -52,6 +60,8 @@ Tolerances (DESIGN 3.2, c * eps * kappa, c = 1e3, eps = 2.2e-16):
   so that a repaired parser using other exact gates is not over-constrained).
 """
 import ast
+import collections
+import fractions
 import inspect
 import itertools
 import math
@@ -73,7 +83,10 @@ RULE = ('state = one (code, Pauli error) node of the breadth-first tree by error
         'whose complete result was compared; trace = one root-to-node path of the error tree / one string parsed in both modes / one '
         'circuit on the complete basis, with every step compared; non-trivial = the observed <i|E|j> matrix is not zero (c_E != 0 below the '
         'distance, or a Knill-Laflamme-violating matrix at weight d), the observed circuit is not the identity, the observed error set '
-        'is not empty, the observed enumerator is not all zero')
+        'is not empty, the observed enumerator is not all zero. Additional coordinates: sub-codes cw[:K\'] (K\' = 1, 2, 3, 5) for the enumerators; '
+        'distance 1, the default weight_z, non-dyadic weights (exact rational reference) and n = 8..12 (class counting) for '
+        'make_asymmetric_error_set; argument forms (memory layout, dtype, torch views, list of vectors) of knill_laflamme_inner_product / '
+        'check_stabilizer; the empty string and zero-padded indices for parse_simple_pauli')
 ASSUMPTIONS = [
     'qubit 0 is the most significant bit of the basis index (documented convention of numqi.sim); a Pauli string s_0 s_1 .. s_{n-1} '
     'denotes kron(s_0, .., s_{n-1})',
@@ -83,10 +96,17 @@ ASSUMPTIONS = [
     'the encoding circuits are re-simulated from the gate *names* (H, cnot, cy, cz with control = first argument) with textbook '
     'matrices; an unknown gate name falls back to the gate\'s own array (counted)',
     'indexed Pauli strings with a repeated index (X0Z0) have no documented meaning and are outside the alphabet',
-    'w_z takes dyadic values, so n_x + n_y + w_z n_z < d is decided exactly in floating point by implementation and reference alike',
+    'dyadic w_z: n_x + n_y + w_z n_z < d is decided exactly in floating point by implementation and reference alike; non-dyadic w_z '
+    '(0.1, 0.3, 1/3, 0.6) denote the exact rational - the reference decides the bound in fractions.Fraction, numqi receives the nearest float',
+    'for n >= 8 the asymmetric error set is not compared with a filter over 4^n strings but class by class: distinct well-formed strings of '
+    'an admissible class (n_x, n_y, n_z) that number the multinomial coefficient are the whole class',
+    'a sub-code spanned by the first K\' code words of an ((n,K,d)) code is an ((n,K\',>=d)) code; K\' in {1, 2, 3} (n <= 6) and 5 (n = 8, thorough)',
+    'single-precision inputs (complex64, float32) may be processed in single precision: tolerance c * 2^-23 * kappa against the reference on '
+    'the rounded amplitudes; nested python lists as code words are not a documented form',
     'weight enumerators through numqi are compared for n <= 6 (quick) and n <= 8 (thorough); for (10,4,4) and (11,2,5) only the '
     'reference enumerator of the implementation\'s code words is evaluated (the monolithic numqi routine needs 16 min resp. > 1 h)',
-    'error weights above d, non-Pauli error operators, K not a power of two and the variational models (VarQEC*) are outside the space',
+    'error weights above d, non-Pauli error operators, K not a power of two for knill_laflamme_inner_product (kind=\'exact\' precondition) '
+    'and the variational models (VarQEC*) are outside the space; no function of numqi.qec other than quantum_weight_enumerator has a use_tqdm option',
 ]
 CHUNK = 1
 
@@ -501,6 +521,14 @@ def indexed_alphabet(index_tuples, first=None):
 
 W_Z = {'quick': [0.5, 1, 1.5, 2, 3], 'thorough': [0.25, 0.5, 0.75, 1, 1.5, 2, 2.5, 3, 4]}
 OP_ALPHABETS = ['XYZ', 'XZ', 'Y']
+# non-dyadic weights, given as text: the reference decides n_x + n_y + w_z n_z < d in exact rationals of the decimal / fraction
+# (the mathematically intended bound), numqi receives the nearest float. 3 / 0.3, 3 / 0.6, k / (1/3) are the quotients where
+# a float ceil could admit one n_z too many.
+W_Z_TEXT = ['0.1', '0.3', '1/3', '0.6']
+# make_asymmetric_error_set by counting classes (no 4^n filter): n = 8 .. 12, d = 1 .. 4, every weight, as long as the
+# expected set has at most this many elements
+ASYM_COUNT_CAP = {'quick': 10000, 'thorough': 330000}
+ASYM_COUNT_ALWAYS = [(10, 3, '0.3')]     # smallest n at which 3 / 0.3 = 10 limits n_z (27082 elements): in both tiers
 
 
 def prepare(env):
@@ -529,6 +557,13 @@ def prepare(env):
         v = rng.normal(size=(3, N))
         Hs = np.array([[(-1) ** bin(b & x).count('1') for x in range(N)] for b in range(N)])
         assert np.abs(wht(v) - v @ Hs.T).max() < 1e-12
+    # class counting == the filter over all strings
+    for n, d, wz in itertools.product((1, 2, 4), (1, 2, 3), ('0.3', '1/3', 0.5, 1, 2)):
+        fr = fractions.Fraction(wz)
+        cl = asym_classes(n, d, fr)
+        flt = collections.Counter((s.count('X'), s.count('Y'), s.count('Z')) for s in all_strings(n)
+                                  if weight(s) > 0 and s.count('X') + s.count('Y') + fr * s.count('Z') < d)
+        assert cl == dict(flt), (n, d, wz)
     # enumerators of the trivial code |00>: P = |00><00|: A = B = [1, 2, 1] (Z-type strings only)
     cw = np.zeros((1, 4), dtype=np.complex128)
     cw[0, 0] = 1
@@ -550,6 +585,10 @@ def prepare(env):
 
 # ------------------------------------------------------------------ cases
 ENUM_IMPL_THOROUGH = ('8_64_2', '883')
+# sub-codes cw[:K'] whose enumerators are computed through numqi (K' = 3, 5 are not powers of two: the zero-padding branch of
+# quantum_weight_enumerator; K' = 1, 2 are the un-padded neighbours). n = 8 costs about a minute: thorough tier only.
+ENUM_SUB = {'quick': [('442', 1), ('442', 2), ('442', 3), ('422', 1), ('523', 1), ('642', 3)],
+            'thorough': [('442', 1), ('442', 2), ('442', 3), ('422', 1), ('523', 1), ('642', 1), ('642', 2), ('642', 3), ('883', 5)]}
 
 
 def codes_of(tier):
@@ -566,6 +605,9 @@ def build_cases(tier, seed):
         # cases anyway). The same call for (10,4,4) needs about 16 min, for (11,2,5) more than an hour: reference only.
         for tag in ENUM_IMPL_THOROUGH:
             cases.append({'kind': 'enum', 'code': tag, 'impl': True})
+        for tag, ks in ENUM_SUB[tier]:
+            if CODE_BY_TAG[tag][1] > 6:
+                cases.append({'kind': 'enum', 'code': tag, 'impl': True, 'Ksub': ks})
     cases.append({'kind': 'qecc_str'})
     # ---- parser
     Lmax = 4 if quick else 6
@@ -581,6 +623,14 @@ def build_cases(tier, seed):
     for tup in ([0], [10], [0, 10], [10, 0]):
         for first in 'IXYZ':
             cases.append({'kind': 'parse', 'notation': 'indexed', 'index_tuples': [tup], 'first': first})
+    cases.append({'kind': 'parse', 'notation': 'empty', 'num_qubit': [1, 2, 3]})
+    pad_small = [0, 1, 3]
+    for T in (1, 2):
+        cases.append({'kind': 'parse', 'notation': 'indexed_padded', 'index_tuples': [list(t) for t in itertools.permutations(pad_small, T)],
+                      'pads': [1, 2, 3], 'first': None})
+    cases.append({'kind': 'parse', 'notation': 'indexed_padded', 'index_tuples': [[10]], 'pads': [3], 'first': None})
+    info['parser_edge'] = {'empty_string_on_qubits': [1, 2, 3], 'leading_zero_indices': pad_small, 'pad_widths': [1, 2, 3],
+                           'max_terms': 2, 'padded_two_digit': ['X010', 'Y010', 'Z010', 'I010']}
     info['parser'] = {'compact_max_length': Lmax, 'compact_strings': sum(4 ** L for L in range(1, Lmax + 1)),
                       'indexed_indices': idx_small, 'indexed_max_terms': Tmax,
                       'indexed_strings': sum(len(indexed_alphabet(list(itertools.permutations(idx_small, T)))) for T in range(1, Tmax + 1)) + 8 + 32,
@@ -591,15 +641,34 @@ def build_cases(tier, seed):
     nd.sort(key=lambda t: (sum(n_errors(t[0], w) for w in range(1, t[1])), t))
     for n, d in nd:
         cases.append({'kind': 'errlist', 'n': n, 'd': d, 'full': bool(n <= 6 and d <= 4)})
-    for n, d in nd:
-        cases.append({'kind': 'asym', 'n': n, 'd': d, 'wz': W_Z[tier]})
-    info['error_sets'] = {'n_max': Nmax, 'd_max': Dmax, 'op_alphabets': OP_ALPHABETS, 'w_z': W_Z[tier],
+    nd1 = sorted(nd + [(n, 1) for n in range(1, Nmax + 1)], key=lambda t: (sum(n_errors(t[0], w) for w in range(1, t[1])), t))
+    for n, d in nd1:       # distance 1 is accepted by this generator (only Z-type errors with w_z n_z < 1 remain)
+        cases.append({'kind': 'asym', 'n': n, 'd': d, 'wz': W_Z[tier] + W_Z_TEXT})
+    big = []
+    for n in range(8, 13):
+        for d in (1, 2, 3, 4):
+            for wz in W_Z_TEXT + [0.5, 1]:
+                size = sum(asym_classes(n, d, fractions.Fraction(wz)).values())
+                if 0 < size <= ASYM_COUNT_CAP[tier] or (n, d, wz) in ASYM_COUNT_ALWAYS:
+                    big.append((size, n, d, wz))
+    big.sort(key=lambda t: (t[0], t[1], t[2], str(t[3])))
+    for size, n, d, wz in big:
+        cases.append({'kind': 'asym_count', 'n': n, 'd': d, 'wz': wz})
+    info['error_sets'] = {'n_max': Nmax, 'd_max': Dmax, 'op_alphabets': OP_ALPHABETS, 'w_z': W_Z[tier], 'w_z_non_dyadic': W_Z_TEXT,
+                          'asym_distance_min': 1, 'asym_default_weight_z': 'every (n, d)',
+                          'asym_by_counting': {'n': [8, 12], 'd': [1, 4], 'w_z': W_Z_TEXT + [0.5, 1], 'max_elements': ASYM_COUNT_CAP[tier],
+                                               'configurations': len(big), 'elements': sum(t[0] for t in big)},
                           'tag_full_for': 'n<=6 and d<=4'}
     # ---- generic atoms for the inner product
     G = 2 if quick else 6
     for n in (2, 3, 4):
         for K in (1, 2, 4):
             cases.append({'kind': 'ipgen', 'n': n, 'K': K, 'atoms': G})
+    for n in (2, 3, 4):
+        for K in (1, 2, 4):
+            cases.append({'kind': 'ipvar', 'n': n, 'K': K, 'atoms': 1 if quick else 3})
+    info['input_forms'] = ['fortran', 'strided', 'complex64', 'float64', 'float32', 'torch_transposed', 'torch_conj_view', 'torch_complex64',
+                           'torch_float64', 'check_stabilizer: list_of_vectors / fortran / strided / complex64 / float64 (real code words)']
     info['generic_atoms'] = {'per_configuration': G, 'configurations': '(n,K) in {2,3,4} x {1,2,4}'}
     # ---- codes
     info['codes'] = []
@@ -614,9 +683,13 @@ def build_cases(tier, seed):
                 cases.append({'kind': 'kl', 'code': tag, 'root': [q, c], 'wmax': wdiff})
         if quick or tag not in ENUM_IMPL_THOROUGH:   # those were queued first in the thorough tier
             cases.append({'kind': 'enum', 'code': tag, 'impl': bool(n <= 6)})
+        for t2, ks in ENUM_SUB[tier]:
+            if t2 == tag and n <= 6:
+                cases.append({'kind': 'enum', 'code': tag, 'impl': True, 'Ksub': ks})
         info['codes'].append({'code': NAME[tag], 'errors_below_distance': sum(n_errors(n, w) for w in range(1, d)),
                               'errors_differential_level': (n_errors(n, d) if wdiff == d else 0),
                               'basis_states_per_stabilizer': 2 ** n, 'stabilizers': N_STAB[tag]})
+    info['enumerator_subcodes'] = ['%s[:%d]' % (NAME[t], k) for t, k in ENUM_SUB[tier]]
     info['exhaustive'] = True
     info['note'] = ('exhaustive within the stated bounds: every Pauli error of weight < d of every shipped code of the tier; every basis state '
                     'for every shipped stabilizer circuit; every string of the parser alphabets; every (n, d, alphabet / w_z) of the generators')
@@ -635,8 +708,12 @@ def run_case(case, out, env):
         run_errlist(numqi, case, out, env)
     elif kind == 'asym':
         run_asym(numqi, case, out, env)
+    elif kind == 'asym_count':
+        run_asym_count(numqi, case, out, env)
     elif kind == 'ipgen':
         run_ipgen(numqi, case, out, env)
+    elif kind == 'ipvar':
+        run_ipvar(numqi, case, out, env)
     elif kind == 'code':
         run_code(numqi, case, out, env)
     elif kind == 'stab':
@@ -691,6 +768,17 @@ def run_parse(numqi, case, out, env):
     f = numqi.qec.parse_simple_pauli
     if case['notation'] == 'compact':
         items = [(s, [(c, q) for q, c in enumerate(s)], len(s)) for s in compact_alphabet(case['len'], case['first'])]
+    elif case['notation'] == 'empty':
+        # the empty string has no digit: compact notation of zero letters = the empty product, on any number of qubits
+        items = [('', [], n) for n in case['num_qubit']]
+    elif case['notation'] == 'indexed_padded':
+        # indices written with leading zeros ('X01', 'Z003'): [0-9]+ is read by int(), so they denote the same qubit
+        items = []
+        for terms in indexed_alphabet(case['index_tuples'], case['first']):
+            for pads in itertools.product(case['pads'], repeat=len(terms)):
+                text = ''.join('%s%0*d' % (c, w, q) for (c, q), w in zip(terms, pads))
+                if text != ''.join('%s%d' % (c, q) for c, q in terms):
+                    items.append((text, terms, max(q for _, q in terms) + 1))
     else:
         items = []
         for terms in indexed_alphabet(case['index_tuples'], case['first']):
@@ -769,21 +857,150 @@ def run_errlist(numqi, case, out, env):
     out.sample = {'kind': 'errlist', 'n': n, 'd': d}
 
 
+def wz_values(wz):
+    """(exact rational, float passed to numqi) of one entry of the w_z alphabets: a dyadic number, or the text of a decimal /
+    fraction ('0.3', '1/3') whose mathematically intended value is the exact rational and whose argument is the nearest float"""
+    fr = fractions.Fraction(wz)
+    return fr, (float(fr) if isinstance(wz, str) else wz)
+
+
+def asym_classes(n, d, fr):
+    """the admissible (n_x, n_y, n_z) with 0 < n_x + n_y + n_z <= n and n_x + n_y + w_z n_z < d, decided in exact rationals,
+    with the number n! / (n_x! n_y! n_z! (n - n_x - n_y - n_z)!) of Pauli strings of each class"""
+    ret = {}
+    for nx in range(n + 1):
+        for ny in range(n + 1 - nx):
+            for nz in range(n + 1 - nx - ny):
+                if nx + ny + nz > 0 and nx + ny + fr * nz < d:
+                    f = math.factorial
+                    ret[(nx, ny, nz)] = f(n) // (f(nx) * f(ny) * f(nz) * f(n - nx - ny - nz))
+    return ret
+
+
+def fast_labels(lst, n):
+    """error_label for long lists: the letter of an operator object is looked up once per object (entry by entry, op_letter)"""
+    memo = {}
+    keep = []
+    ret = []
+    for err in lst:
+        try:
+            items = []
+            for ind, op in err:
+                c = memo.get(id(op))
+                if c is None:
+                    c = memo[id(op)] = op_letter(op) or '?'
+                    keep.append(op)           # keeps the object alive, so that the id stays unique
+                q = ind[0]
+                if c == '?' or len(ind) != 1 or not (0 <= q < n) or q != int(q):
+                    items = None
+                    break
+                items.append((int(q), c))
+            if items is not None and len({q for q, _ in items}) != len(items):
+                items = None
+        except Exception:
+            items = None
+        ret.append(None if items is None else tuple(sorted(items)))
+    return ret
+
+
+def compare_error_counts(out, site, labels, classes, detail):
+    """compare_error_set without the filter over 4^n strings: every label is well-formed, distinct, of an admissible class
+    (n_x, n_y, n_z), and every admissible class has its full number of strings (distinct strings of a class that number its
+    multinomial coefficient ARE the class). Same finding keys as compare_error_set."""
+    bad = [i for i, l in enumerate(labels) if l is None]
+    if bad:
+        out.violation(site + '/malformed_element', 'element %d of the error set is not a list of ([qubit], Pauli matrix) on distinct qubits' % bad[0],
+                      n_malformed=len(bad), **detail)
+    good = [l for l in labels if l is not None]
+    qual = 'num_qubit<distance' if detail['num_qubit'] < detail['distance'] else 'num_qubit>=distance'
+    distinct = set(good)
+    if len(distinct) != len(good):
+        cnt = collections.Counter(good)
+        l0 = min(l for l, c in cnt.items() if c > 1)
+        out.violation('%s/duplicate_error/%s' % (site, qual), 'error %s is generated %d times' % (label_text(l0), cnt[l0]),
+                      n_duplicates=len(good) - len(distinct), first=label_text(l0), **detail)
+    got = collections.Counter()
+    first = {}
+    for l in distinct:
+        k = (sum(c == 'X' for _, c in l), sum(c == 'Y' for _, c in l), sum(c == 'Z' for _, c in l))
+        got[k] += 1
+        if k not in first or l < first[k]:
+            first[k] = l
+    extra = sorted(k for k in got if k not in classes)
+    if extra:
+        out.violation('%s/inadmissible_error/%s' % (site, qual), '%d generated errors are outside the admissible set, e.g. %s with (n_x, n_y, n_z) = %r'
+                      % (sum(got[k] for k in extra), label_text(first[extra[0]]), extra[0]),
+                      n_extra=sum(got[k] for k in extra), first_extra=[label_text(first[k]) for k in extra[:8]], **detail)
+    short = sorted(k for k in classes if got[k] != classes[k])
+    if short:
+        out.violation('%s/missing_admissible_error/%s' % (site, qual),
+                      '%d admissible Pauli errors are not generated, e.g. only %d of the %d with (n_x, n_y, n_z) = %r (returned %d elements, expected %d)'
+                      % (sum(classes[k] - got[k] for k in short), got[short[0]], classes[short[0]], short[0], len(labels), sum(classes.values())),
+                      n_missing=sum(classes[k] - got[k] for k in short), first_missing_classes=[list(k) for k in short[:8]], **detail)
+    return not (bad or extra or short or len(distinct) != len(good))
+
+
 def run_asym(numqi, case, out, env):
     n, d = case['n'], case['d']
     site = SITE_I + ':make_asymmetric_error_set'
     strings = all_strings(n)
     cnt = [(s, sum(c in 'XY' for c in s), sum(c == 'Z' for c in s)) for s in strings]
+    by_wz = {}
     for wz in case['wz']:
-        expected = {string_to_label(s) for s, nxy, nz in cnt if (nxy + nz > 0) and (nxy + wz * nz < d)}
+        fr, arg = wz_values(wz)            # dyadic: fr == arg exactly
+        expected = {string_to_label(s) for s, nxy, nz in cnt if (nxy + nz > 0) and (nxy + fr * nz < d)}
         out.state()
         out.trans()
-        lst = numqi.qec.make_asymmetric_error_set(n, d, wz)
+        lst = numqi.qec.make_asymmetric_error_set(n, d, arg)
         labels = [error_label(e, n) for e in lst]
         compare_error_set(out, site, labels, expected, dict(num_qubit=n, distance=d, weight_z=wz))
         out.outcome((n, d, wz, sorted(l for l in labels if l is not None)), nontrivial=len(lst) > 0)
         out.trace()
+        by_wz[wz] = labels
+        if isinstance(wz, str):
+            out.count('asym_non_dyadic_weight')
+    # ---- the default weight_z (documented default 1): the call without it, the call with 1, and make_error_list agree
+    out.state()
+    out.trans()
+    lst = numqi.qec.make_asymmetric_error_set(n, d)
+    labels = [error_label(e, n) for e in lst]
+    if 1 not in by_wz:
+        out.trans()
+        by_wz[1] = [error_label(e, n) for e in numqi.qec.make_asymmetric_error_set(n, d, 1)]
+    out.check(labels == by_wz[1], site + '/default_weight_z_differs_from_1',
+              'make_asymmetric_error_set(%d, %d) returns %d errors, make_asymmetric_error_set(%d, %d, 1) %d (or another order)' % (n, d, len(labels), n, d, len(by_wz[1])),
+              num_qubit=n, distance=d)
+    expected = {string_to_label(s) for s, nxy, nz in cnt if 1 <= nxy + nz <= d - 1}
+    compare_error_set(out, site, labels, expected, dict(num_qubit=n, distance=d, weight_z='default'))
+    if d > 1:           # make_error_list asserts distance > 1
+        out.trans()
+        sym = [error_label(e, n) for e in numqi.qec.make_error_list(n, d)]
+        out.check(None not in labels and None not in sym and len(labels) == len(sym) and set(labels) == set(sym),
+                  site + '/default_weight_z_differs_from_make_error_list',
+                  'make_asymmetric_error_set(%d, %d) (%d errors) is not the set make_error_list(%d, %d) (%d errors)' % (n, d, len(labels), n, d, len(sym)),
+                  num_qubit=n, distance=d)
+    out.outcome((n, d, 'default', sorted(l for l in labels if l is not None)), nontrivial=len(lst) > 0)
+    out.trace()
     out.sample = {'kind': 'asym', 'n': n, 'd': d, 'weight_z': case['wz']}
+
+
+def run_asym_count(numqi, case, out, env):
+    """one (n, d, w_z) with n beyond the reach of the 4^n filter: complete / unique / nothing else by counting classes"""
+    n, d, wz = case['n'], case['d'], case['wz']
+    site = SITE_I + ':make_asymmetric_error_set'
+    fr, arg = wz_values(wz)
+    classes = asym_classes(n, d, fr)
+    # is the weighted bound what limits n_z somewhere (and not just the number of qubits)?
+    binding = any(nx + ny + nz < n and (nx, ny, nz + 1) not in classes for nx, ny, nz in classes)
+    out.count('asym_count_weighted_bound_binding' if binding else 'asym_count_only_qubit_number_binding')
+    out.state()
+    out.trans()
+    lst = numqi.qec.make_asymmetric_error_set(n, d, arg)
+    labels = fast_labels(lst, n)
+    compare_error_counts(out, site, labels, classes, dict(num_qubit=n, distance=d, weight_z=wz))
+    out.outcome((n, d, wz, len(lst), sorted(classes.items())), nontrivial=len(lst) > 0)
+    out.trace()
+    out.sample = {'kind': 'asym_count', 'n': n, 'd': d, 'weight_z': wz, 'errors': len(lst)}
 
 
 def ip_backends(numqi, q0, errs):
@@ -877,6 +1094,112 @@ def run_ipgen(numqi, case, out, env):
     out.sample = {'kind': 'ipgen', 'n': n, 'K': K, 'errors': len(errs)}
 
 
+EPS32 = 1.1920928955078125e-07     # 2^-23: inputs given in single precision may be processed in single precision
+
+
+def input_forms(q0, rng_real):
+    """argument forms of one (K, 2^n) array of unit rows for knill_laflamme_inner_product / check_stabilizer:
+    name -> (argument builder (numpy), the values the argument holds as complex128 C-order, unit round-off of the form).
+    Layout forms hold q0 itself; dtype forms hold the rounded / real values (reference recomputed on exactly those)."""
+    K, N = q0.shape
+    big = np.zeros((2 * K, 2 * N), dtype=q0.dtype)
+    big[::2, ::2] = q0
+    qr = rng_real / np.linalg.norm(rng_real, axis=1, keepdims=True)
+    forms = {
+        'fortran': (np.asfortranarray(q0), q0, EPS),
+        'strided': (big[::2, ::2], q0, EPS),
+        'complex64': (q0.astype(np.complex64), q0.astype(np.complex64).astype(np.complex128), EPS32),
+        'float64': (qr, qr.astype(np.complex128), EPS),
+        'float32': (qr.astype(np.float32), qr.astype(np.float32).astype(np.complex128), EPS32),
+    }
+    return forms
+
+
+def run_ipvar(numqi, case, out, env):
+    """knill_laflamme_inner_product: the result does not depend on the memory layout of q0, and real / single-precision q0
+    give the inner products of exactly those amplitudes (Y errors on real amplitudes: the result is complex)"""
+    import torch
+    n, K = case['n'], case['K']
+    pr = pauli_ref(n)
+    errs = numqi.qec.make_error_list(n, min(n, 3) + 1)
+    labels = [error_label(e, n) for e in errs]
+    f = numqi.qec.knill_laflamme_inner_product
+    keybase = '%s:knill_laflamme_inner_product/input_form_changes_result' % SITE_I
+
+    def reference(v):
+        M = np.zeros((len(errs), K, K), dtype=np.complex128)
+        for i, l in enumerate(labels):
+            if l is not None:
+                M[i] = v.conj() @ pr.apply_terms(v, [(c, q) for q, c in l]).T
+        return M
+    for g in range(case['atoms']):
+        rng = env.rng('C19', 'ipvar', n, K, g)
+        q0 = rng.normal(size=(K, 1 << n)) + 1j * rng.normal(size=(K, 1 << n))
+        q0 = q0 / np.linalg.norm(q0, axis=1, keepdims=True)
+        forms = input_forms(q0, rng.normal(size=(K, 1 << n)))
+        calls = []
+        for name, (arg, val, eps) in forms.items():
+            calls.append((name, arg, val, eps))
+        calls.append(('torch_transposed', torch.tensor(q0.T.copy()).T, q0, EPS))
+        calls.append(('torch_conj_view', torch.tensor(q0.conj()).conj(), q0, EPS))
+        calls.append(('torch_complex64', torch.tensor(forms['complex64'][0]), forms['complex64'][1], EPS32))
+        calls.append(('torch_float64', torch.tensor(forms['float64'][0]), forms['float64'][1], EPS))
+        refs = {}
+        for name, arg, val, eps in calls:
+            out.state()
+            out.trans()
+            if isinstance(arg, torch.Tensor):
+                if name == 'torch_transposed':
+                    assert K == 1 or not arg.is_contiguous()
+                if name == 'torch_conj_view':
+                    assert arg.is_conj()
+            try:
+                got = f(arg, errs)
+            except Exception as e:
+                out.violation('%s/%s/%s' % (keybase, name, type(e).__name__), 'knill_laflamme_inner_product(q0 as %s) raised %r' % (name, e), form=name, q0=val)
+                continue
+            got = got.detach().numpy() if isinstance(got, torch.Tensor) else np.asarray(got)
+            if id(val) not in refs:
+                refs[id(val)] = reference(val)
+            Mref = refs[id(val)]
+            tol = C_SAFE * eps * (2 ** n)          # tol_ip with the round-off of the form (no encoding gates)
+            ok = got.shape == Mref.shape and bool(np.all(np.isfinite(got))) and float(np.abs(got - Mref).max()) <= tol
+            if not ok:
+                i = int(np.argmax(np.abs(got - Mref).reshape(len(errs), -1).max(axis=1))) if got.shape == Mref.shape else 0
+                out.violation('%s/%s' % (keybase, name), '<i|E|j> for q0 given as %s: E=%s differs from the reference on the same amplitudes by %.3g (tol %.3g); result dtype %s'
+                              % (name, label_text(labels[i] or ()), float(np.abs(got[i] - Mref[i]).max()) if got.shape == Mref.shape else np.nan, tol, got.dtype),
+                              form=name, error=label_text(labels[i] or ()), q0=val, got=(got[i] if got.shape == Mref.shape else list(got.shape)), expected=Mref[i])
+            out.outcome((n, K, name, np.round(Mref, 6)), nontrivial=bool(np.abs(Mref.imag).max() > 1e-6))
+        out.trace()
+    out.sample = {'kind': 'ipvar', 'n': n, 'K': K, 'forms': [c[0] for c in calls]}
+
+
+def check_stabilizer_forms(numqi, out, stab, strings_n, cw, n, n_gate, name):
+    """check_stabilizer(stab, code) for the other documented / natural forms of `code` (a list of vectors, other layouts and
+    dtypes): the expectation values of the listed strings on exactly those amplitudes"""
+    K = cw.shape[0]
+    pr = pauli_ref(n)
+    forms = {k: v for k, v in input_forms(cw, np.ones_like(cw.real)).items() if k in ('fortran', 'strided', 'complex64')}
+    forms['list_of_vectors'] = ([cw[i].copy() for i in range(K)], cw, EPS)
+    if not np.any(cw.imag):
+        forms['float64'] = (cw.real.copy(), cw, EPS)
+        out.count('check_stabilizer_real_code_words')
+    for form, (arg, val, eps) in forms.items():
+        out.state()
+        out.trans()
+        key = '%s:check_stabilizer/input_form_changes_result/%s' % (SITE_I, form)
+        try:
+            got = np.asarray(numqi.qec.check_stabilizer(stab, arg))
+        except Exception as e:
+            out.violation(key + '/' + type(e).__name__, 'check_stabilizer(code as %s) raised %r' % (form, e), code=name, form=form)
+            continue
+        exp = np.stack([np.einsum('ix,ix->i', val.conj(), pr.apply_string(val, s)) for s in strings_n], axis=1)
+        tol = C_SAFE * eps * (2 ** n + 2 * n_gate)
+        ok = got.shape == exp.shape and bool(np.all(np.isfinite(got))) and float(np.abs(got - exp).max()) <= tol
+        out.check(ok, key, 'check_stabilizer(code as %s) = %s, <c|S|c> of the listed strings = %s' % (form, np.round(got, 6).tolist(), np.round(exp, 6).tolist()),
+                  code=name, form=form)
+
+
 def build_code(numqi, tag, out):
     """generate the code and its code words. Returns dict or None (violation recorded)"""
     _, n, K, d = CODE_BY_TAG[tag]
@@ -952,6 +1275,7 @@ def run_code(numqi, case, out, env):
         okc = got.shape == exp_val.shape and float(np.abs(got - exp_val).max()) <= ti
         out.check(okc, SITE_I + ':check_stabilizer/differs_from_listed_pauli_expectation',
                   'check_stabilizer = %s, <c|S|c> of the listed strings = %s' % (np.round(got, 6).tolist(), np.round(exp_val, 6).tolist()), code=NAME[tag])
+        check_stabilizer_forms(numqi, out, stab, strings_n, cw, n, c['n_gate'], NAME[tag])
     for k in range(N_STAB[tag], len(stab)):      # stabilizers beyond those the case list was built for
         stab_check(numqi, out, c, tag, strings, k)
     out.trace()
@@ -1119,29 +1443,40 @@ def run_enum(numqi, case, out, env):
         out.trans()
         out.count('code_words_unusable')
         return
+    Ksub = case.get('Ksub')
+    name = NAME[tag]
+    if Ksub is not None:
+        # sub-code spanned by the first K' code words: an ((n, K', >= d)) code (the Knill-Laflamme conditions of a subspace
+        # follow from those of the code), K' not necessarily a power of two (np.pad branch of quantum_weight_enumerator)
+        assert 1 <= Ksub < K
+        cw = cw[:Ksub]
+        K = Ksub
+        name = '%s[:%d]' % (NAME[tag], Ksub)
+        out.count('enum_subcode_K_not_power_of_two' if (K & (K - 1)) else 'enum_subcode_K_power_of_two')
     A, B = ref_enumerators(cw, n)            # A[0..n], B[0..n] of the implementation's code words
     kap = 2 * (2 ** n + 2 * c['n_gate'])
 
     def tol_j(j):
         return C_SAFE * EPS * (kap + n_errors(n, j)) * max(1.0, B[j])
     key = SITE_I + ':quantum_weight_enumerator'
+    qual = '/K_not_power_of_two' if (K & (K - 1)) else ''      # a defect of the padding branch gets its own key
 
     def rules(a, b, who, keybase):
         """a, b: arrays [0..n] including the weight-0 entries"""
         tsum = sum(tol_j(j) for j in range(n + 1))
-        out.check(abs(a.sum() - 2 ** n / K) <= tsum, keybase + '/sum_rule_A', '%s %s: sum_j A_j = %.12g, expected 2^n/K = %g' % (NAME[tag], who, a.sum(), 2 ** n / K),
-                  code=NAME[tag], A=a)
-        out.check(abs(b.sum() - 2 ** n * K) <= tsum, keybase + '/sum_rule_B', '%s %s: sum_j B_j = %.12g, expected 2^n K = %g' % (NAME[tag], who, b.sum(), 2 ** n * K),
-                  code=NAME[tag], B=b)
+        out.check(abs(a.sum() - 2 ** n / K) <= tsum, keybase + '/sum_rule_A', '%s %s: sum_j A_j = %.12g, expected 2^n/K = %g' % (name, who, a.sum(), 2 ** n / K),
+                  code=name, A=a)
+        out.check(abs(b.sum() - 2 ** n * K) <= tsum, keybase + '/sum_rule_B', '%s %s: sum_j B_j = %.12g, expected 2^n K = %g' % (name, who, b.sum(), 2 ** n * K),
+                  code=name, B=b)
         for j in range(n + 1):
-            out.check(a[j] >= -tol_j(j) and a[j] <= b[j] + tol_j(j), keybase + '/A_exceeds_B', '%s %s: A_%d = %.12g, B_%d = %.12g' % (NAME[tag], who, j, a[j], j, b[j]),
-                      code=NAME[tag], A=a, B=b)
+            out.check(a[j] >= -tol_j(j) and a[j] <= b[j] + tol_j(j), keybase + '/A_exceeds_B', '%s %s: A_%d = %.12g, B_%d = %.12g' % (name, who, j, a[j], j, b[j]),
+                      code=name, A=a, B=b)
         for j in range(d):
             out.check(abs(a[j] - b[j]) <= tol_j(j), keybase + '/A_differs_from_B_below_distance',
-                      '%s %s: A_%d = %.12g != B_%d = %.12g although %d < d = %d' % (NAME[tag], who, j, a[j], j, b[j], j, d), code=NAME[tag], A=a, B=b)
-    out.check(abs(A[0] - 1) <= tol_j(0) and abs(B[0] - 1) <= tol_j(0), site + '/codewords_not_orthonormal', 'A_0, B_0 = %r, %r' % (A[0], B[0]), code=NAME[tag])
+                      '%s %s: A_%d = %.12g != B_%d = %.12g although %d < d = %d' % (name, who, j, a[j], j, b[j], j, d), code=name, A=a, B=b)
+    out.check(abs(A[0] - 1) <= tol_j(0) and abs(B[0] - 1) <= tol_j(0), site + '/codewords_not_orthonormal', 'A_0, B_0 = %r, %r' % (A[0], B[0]), code=name)
     rules(A, B, 'reference enumerator of the code words', site + '/enumerator')
-    out.outcome(('enum', tag, np.round(A, 6), np.round(B, 6)), nontrivial=True)
+    out.outcome(('enum', tag, K, np.round(A, 6), np.round(B, 6)), nontrivial=True)
     if case['impl']:
         out.trans()
         gA, gB = numqi.qec.quantum_weight_enumerator(cw)
@@ -1154,21 +1489,21 @@ def run_enum(numqi, case, out, env):
             tA, tB = np.asarray(tA, dtype=np.float64), np.asarray(tB, dtype=np.float64)
             out.trans()
             out.check(tA.shape == gA.shape and tB.shape == gB.shape and np.array_equal(tA, gA) and np.array_equal(tB, gB), key + '/use_tqdm_changes_result',
-                      '%s: quantum_weight_enumerator(use_tqdm=True) = %r, %r; use_tqdm=False = %r, %r' % (NAME[tag], tA.tolist(), tB.tolist(), gA.tolist(), gB.tolist()),
-                      code=NAME[tag])
-        if out.check(gA.shape == (n,) and gB.shape == (n,) and np.all(np.isfinite(gA)) and np.all(np.isfinite(gB)), key + '/wrong_shape_or_nonfinite',
-                     'quantum_weight_enumerator returns shapes %r %r' % (gA.shape, gB.shape), code=NAME[tag]):
+                      '%s: quantum_weight_enumerator(use_tqdm=True) = %r, %r; use_tqdm=False = %r, %r' % (name, tA.tolist(), tB.tolist(), gA.tolist(), gB.tolist()),
+                      code=name)
+        if out.check(gA.shape == (n,) and gB.shape == (n,) and np.all(np.isfinite(gA)) and np.all(np.isfinite(gB)), key + '/wrong_shape_or_nonfinite' + qual,
+                     'quantum_weight_enumerator returns shapes %r %r' % (gA.shape, gB.shape), code=name):
             for j in range(1, n + 1):
-                out.check(abs(gA[j - 1] - A[j]) <= tol_j(j) and abs(gB[j - 1] - B[j]) <= tol_j(j), key + '/differs_from_reference',
-                          '%s: quantum_weight_enumerator A_%d, B_%d = %.12g, %.12g; reference %.12g, %.12g' % (NAME[tag], j, j, gA[j - 1], gB[j - 1], A[j], B[j]),
-                          code=NAME[tag], A=gA, B=gB, A_ref=A, B_ref=B)
+                out.check(abs(gA[j - 1] - A[j]) <= tol_j(j) and abs(gB[j - 1] - B[j]) <= tol_j(j), key + '/differs_from_reference' + qual,
+                          '%s: quantum_weight_enumerator A_%d, B_%d = %.12g, %.12g; reference %.12g, %.12g' % (name, j, j, gA[j - 1], gB[j - 1], A[j], B[j]),
+                          code=name, A=gA, B=gB, A_ref=A, B_ref=B)
             # documented convention: the weight-0 entries A_0 = B_0 = 1 are not returned
-            rules(np.concatenate([[1.0], gA]), np.concatenate([[1.0], gB]), 'quantum_weight_enumerator', key)
-            out.outcome(('enum_impl', tag, np.round(gA, 6), np.round(gB, 6)), nontrivial=bool(np.abs(gB).max() > 1e-9))
+            rules(np.concatenate([[1.0], gA]), np.concatenate([[1.0], gB]), 'quantum_weight_enumerator', key + qual)
+            out.outcome(('enum_impl', tag, K, np.round(gA, 6), np.round(gB, 6)), nontrivial=bool(np.abs(gB).max() > 1e-9))
         out.trace()
     else:
         out.count('enumerator_reference_only')
-    out.sample = {'kind': 'enum', 'code': NAME[tag], 'A': np.round(A, 6).tolist(), 'B': np.round(B, 6).tolist(), 'through_numqi': case['impl']}
+    out.sample = {'kind': 'enum', 'code': name, 'K': K, 'A': np.round(A, 6).tolist(), 'B': np.round(B, 6).tolist(), 'through_numqi': case['impl']}
 
 
 def finalize(aggs, out, env):
